@@ -148,21 +148,29 @@ bool isCompoundSIUnit(const std::string &u) {
     return pieces >= 2;
 }
 void splitUnit(const std::string &c, std::string &prefix, std::string &unit, std::string &power) VRT("_ZN3nix4util9splitUnitERKNSt7__cxx1112basic_stringIcSt11char_traitsIcESaIcEEERS6_S9_S9_");
+// groups of the full match PREFIX{pfx} UNIT POWER{pow} (first success in alternative order, like regex_match's back-tracking)
+static bool match_groups(const std::string &s, bool with_prefix, bool with_power, std::string &prefix, std::string &unit, std::string &power) {
+    for (int pi = with_prefix ? 0 : -1; pi < (with_prefix ? 20 : 0); pi++) {
+        size_t pl = 0;
+        if (pi >= 0) { pl = starts(s, 0, PFX[pi]); if (!pl) continue; }
+        for (int ui = 0; UNT[ui]; ui++) {
+            size_t ul = starts(s, pl, UNT[ui]);
+            if (!ul) continue;
+            size_t rest = pl + ul;
+            if (!with_power) { if (rest != s.size()) continue; }
+            else { size_t w = power_at(s, rest); if (!w || rest + w != s.size()) continue; }
+            prefix = s.substr(0, pl); unit = s.substr(pl, ul); power = with_power ? s.substr(rest + 1) : std::string();
+            return true;
+        }
+    }
+    return false;
+}
 void splitUnit(const std::string &c, std::string &prefix, std::string &unit, std::string &power) {
-    size_t pos, len;
-    if (full_match(c, 1, 1)) {
-        search_alt(c, PFX, pos, len); prefix = c.substr(pos, len);
-        std::string suffix = c.substr(pos + len);
-        search_alt(suffix, UNT, pos, len); unit = suffix.substr(pos, len);
-        power = suffix.substr(pos + len); power = power.substr(1);
-    } else if (full_match(c, 0, 1)) {
-        prefix = "";
-        search_alt(c, UNT, pos, len); unit = c.substr(pos, len);
-        power = c.substr(pos + len); power = power.substr(1);
-    } else if (full_match(c, 1, 0)) {
-        search_alt(c, PFX, pos, len); prefix = c.substr(pos, len);
-        unit = c.substr(pos + len); power = "";
-    } else { unit = c; prefix = ""; power = ""; }
+    // mirrors src/util/util.cpp splitUnit (after the fix that reads the match groups): prefix+unit+power, unit+power, prefix+unit, else the whole string
+    if (match_groups(c, true, true, prefix, unit, power)) return;
+    if (match_groups(c, false, true, prefix, unit, power)) return;
+    if (match_groups(c, true, false, prefix, unit, power)) return;
+    unit = c; prefix = ""; power = "";
 }
 namespace { void invertPower(std::string &unit) {
     std::string p, u, power; vrt::splitUnit(unit, p, u, power);
